@@ -449,7 +449,10 @@ def run(ctx):
         cls = 'Quaternion'
         r = rng.random()
         if which == 'exp_log':
-            q = gen.vec(rng, 4, 1e-3, 1e3)
+            q = gen.vec(rng, 4, 1e-3, 1e3) if rng.random() < 0.6 else gen.vec(rng, 4, 1e-6, 1e6)
+            if rng.random() < 0.1:       # vector part far smaller than the scalar part (all components still within 1e-6 .. 1e6)
+                sc_ = gen.logu(rng, 1e1, 1e6)
+                q = np.r_[gen.sign(rng) * sc_, gen.unit_axis(rng) * gen.logu(rng, 1e-6, sc_ * 1e-6)]
             if r < 0.3:
                 q[0] = gen.sign(rng) * gen.logu(rng, 1e-6, 1e-1)
             elif r < 0.6:      # unit quaternion receiver, both hemispheres, rotation angle over (0, 2 pi)
